@@ -17,3 +17,74 @@ package types
 //@   ensures !bhasprefix(bytes(key), "mavl-") ==> result1 == ErrMavlKeyNotStartWithMavl
 //@   loop 0 invariant 5 <= i && i <= len(key) && nodash(bytes(key), 5, i)
 //@   loop 0 decreases len(key) - i
+
+// ---- account blacklist (C31) ---------------------------------------------------------------------
+// blockedAddr / blockedRaw name the verdicts of IsBlockedAccount / IsBlockedAccountRaw (definitional,
+// assumed deterministic for a fixed blacklist); txAllowed names the verdict of CheckTxBlockedAccount.
+//@ smt (declare-fun blockedAddr (Bytes) Bool)
+//@ smt (declare-fun blockedRaw (Bytes) Bool)
+//@ smt (declare-fun txAllowed (Int Int Int) Bool)
+//@ smt (declare-fun txAllowedNow (Int) Bool)
+
+//@ pure func (*Transaction).Hash
+//@ pure func (*Transaction).From
+//@ pure func (*Transaction).GetRealToAddr
+//@ pure func github.com/33cn/chain33/common.ToHex
+//@ pure func GetRealExecName
+//@ pure func (*Chain33Config).IsFork
+//@ pure func github.com/33cn/chain33/common/address.IsEthAddress
+//@ pure func github.com/33cn/chain33/common.FromHex
+//@ trusted func github.com/33cn/chain33/common/address.NewBtcAddress
+//@   frame nothing
+//@   ensures result1 == nil ==> result0 != nil
+//@ trusted func Decode
+//@   frame *msg
+
+//@ func IsBlockedAccountRaw [C31]
+//@   frame nothing
+//@   ensures len(raw) != 20 ==> !result
+//@   assume-ensures result == blockedRaw(bytes(raw))
+
+//@ func IsBlockedAccount [C31]
+//@   frame nothing
+//@   ensures result ==> ret1(parseBlockedAccount) == nil && ret(IsBlockedAccountRaw)
+//@   assume-ensures result == blockedAddr(addr)
+
+// The four positions: sender, recipient, real recipient, EVM target (contract address / raw para).
+//@ func checkTxBlockedAccountCore [C31]
+//@   frame nothing
+//@   ensures result == nil && called(From) ==> !blockedAddr(ret(From)) && !blockedAddr(ret(GetTo))
+//@   ensures result == nil && called(From) ==> ret(GetRealToAddr) == ret(GetTo, 1) || !blockedAddr(ret(GetRealToAddr))
+//@   ensures result == nil && called(From) ==> ret(checkEVMTxBlockedTarget) == nil
+//@   ensures tx != nil && old(len(blockedAccountSet)) != 0 ==> called(From)
+
+//@ func checkEVMTxBlockedTarget [C31]
+//@   frame nothing
+//@   opt safety=assumed
+//@   ensures result == nil && called(Decode) && ret(Decode) == nil ==> ret(GetContractAddr) == "" || !blockedAddr(ret(GetContractAddr))
+//@   ensures result == nil && called(Decode) && ret(Decode) == nil ==> !blockedRaw(bytes(ret(GetPara)))
+
+// Fork gate: exactly ForkAccountBlacklist at the given height.
+//@ func CheckTxBlockedAccount [C31]
+//@   frame nothing
+//@   ensures cfg != nil && ret(IsFork) ==> called(checkTxBlockedAccountCore) && result == ret(checkTxBlockedAccountCore)
+//@   assert@call IsFork: arg1 == height && arg2 == "ForkAccountBlacklist"
+//@   assert@call checkTxBlockedAccountCore: arg0 == tx
+//@   assume-ensures (result == nil) == txAllowed(ref(cfg), height, ref(tx))
+
+//@ func CheckTxBlockedAccountImmediate [C31]
+//@   frame nothing
+//@   ensures result == ret(checkTxBlockedAccountCore)
+//@   assert@call checkTxBlockedAccountCore: arg0 == tx
+//@   assume-ensures (result == nil) == txAllowedNow(ref(tx))
+
+// Groups: every member is checked.
+//@ func CheckTxsBlockedAccount [C31]
+//@   frame nothing
+//@   ensures result == nil ==> forall k :: 0 <= k && k < len(txs) ==> txAllowed(ref(cfg), height, txs[k])
+//@   loop 0 invariant forall k :: 0 <= k && k <= rangeindex ==> txAllowed(ref(cfg), height, txs[k])
+
+//@ func CheckTxsBlockedAccountImmediate [C31]
+//@   frame nothing
+//@   ensures result == nil ==> forall k :: 0 <= k && k < len(txs) ==> txAllowedNow(txs[k])
+//@   loop 0 invariant forall k :: 0 <= k && k <= rangeindex ==> txAllowedNow(txs[k])
